@@ -128,6 +128,13 @@ for _pid, _only, _must in [
         explanation='Executable model of the actor runtime at handler granularity with scripted behaviours; invariants proved over every reachable state (all trees, all rule tables, all schedules of handler steps and outside operations); lock-step ties the model to the real system.',
     )
 
+# C06 also owns the kill-order probe: scheduling points inside the termination clean-up
+PROPS['C06']['engines'].append(dict(name='killorder', nomodel=True, must_hit=['variant:0', 'variant:3', 'variant:7', 'variant:15']))
+PROPS['C06']['rule'] = AS_RULE + (' killorder (monitor only): parent + fixed-name child (optionally with a grandchild, a watcher, poison, two ActorKilledEvent subscribers) under the baton with extra scheduling points after each '
+                                  'notification group of the termination clean-up (yield sites kh.*), seeded random schedules (12 / thorough 200 per variant x 16 variants): whenever a parent or watcher observes OnKilled{X}, '
+                                  'that very actor X and all its doomed descendants are already unregistered and the parent can re-create the child under the same name.')
+PROPS['C06']['trusted_base'] = AS_TRUST + ['placement of the kh.* yield sites (after the watcher / parent / event notifications, where no lock is held)']
+
 PROPS['C20'] = dict(
     modules=['Vivid.Props.C20'],
     gens=[],
